@@ -271,6 +271,9 @@ func cmdCheck(args []string) int {
 	if len(violations) > 0 {
 		exit = 1
 		dir := filepath.Join(verifDir(), "replays", prop)
+		if o := os.Getenv("VERIF_OUT"); o != "" {
+			dir = filepath.Join(o, "replays", prop)
+		}
 		os.RemoveAll(dir)
 		for i := range violations {
 			v := &violations[i]
@@ -394,6 +397,9 @@ func evSetViolations(prop string, n int) {
 
 func flushEvidence(prop string) {
 	dir := filepath.Join(verifDir(), "evidence")
+	if o := os.Getenv("VERIF_OUT"); o != "" {
+		dir = filepath.Join(o, "evidence")
+	}
 	os.MkdirAll(dir, 0755)
 	b, _ := json.MarshalIndent(lastEvidence, "", " ")
 	os.WriteFile(filepath.Join(dir, prop+".json"), b, 0644)
